@@ -57,6 +57,53 @@ def state_run(msgs):
     return out
 
 
+def _collector(out):
+    def on_state(st):
+        if isinstance(st, M.CameraState):
+            out.append(f"i:{st.key}:{bytes(st.data).hex() or '-'}")
+        else:
+            wire = next((w for w, c in SUBSCRIBE_STATES_RESPONSE_TYPES.items() if c is type(st)), None)
+            out.append(f"m:{PROTO_TO_MESSAGE_TYPE[wire] if wire else '?' + type(st).__name__}:{st.key}")
+    return on_state
+
+
+def _feed(conn, m):
+    if m[0] == "s":
+        live.feed_message(conn, m[1](key=m[2]))
+    else:
+        live.feed_message(conn, pb.CameraImageResponse(key=m[1], data=m[2], done=m[3]))
+
+
+def two_subs_run(msgs, at):
+    """two subscribe_states() on ONE client and connection: the first before the stream, the second after `at` messages"""
+    client, conn, tr, loop = live.make_client()
+    a, b = [], []
+    client.subscribe_states(_collector(a))
+    for i, m in enumerate(msgs):
+        if i == at:
+            client.subscribe_states(_collector(b))
+        _feed(conn, m)
+    if at >= len(msgs):
+        client.subscribe_states(_collector(b))
+    return a, b
+
+
+def resession_run(msgs1, msgs2):
+    """the SAME client over two sessions: subscribe + stream, the session dies (possibly mid-image), a new session,
+    subscribe + stream again"""
+    client, conn, tr, loop = live.make_client()
+    a, b = [], []
+    client.subscribe_states(_collector(a))
+    for m in msgs1:
+        _feed(conn, m)
+    conn.force_disconnect()
+    live.attach_session(client)
+    client.subscribe_states(_collector(b))
+    for m in msgs2:
+        _feed(client._connection, m)
+    return a, b
+
+
 def expected_images(msgs):
     """from the property text: per key, concatenation of that key's chunks since its previous completion"""
     acc, out = {}, []
@@ -233,6 +280,40 @@ def run(ck: Check):
             else:
                 msgs.append(("s", rng.choice(state_types), rng.randrange(1, 9)))
         add_state_case(msgs)
+    # 2b. subscription points: a second subscriber joining anywhere in the stream, and the same client subscribing again in
+    # a new session after the old one died mid-image - every subscription reassembles the chunks IT has received
+    def toks_of(msgs):
+        return [f"s:{PROTO_TO_MESSAGE_TYPE[m[1]]}:{m[2]}" if m[0] == "s" else f"c:{m[1]}:{m[2].hex() or '-'}:{1 if m[3] else 0}" for m in msgs]
+
+    def judge_sub(what, got, msgs, rep):
+        nonlocal n_viol
+        lines.append("sb.run " + " ".join(toks_of(msgs)))
+        impl.append(" ".join(got))
+        kinds.append("state")
+        want = expected_images(msgs)
+        if got != want and n_viol < 5:
+            n_viol += 1
+            ck.violation("c17:" + what, f"{what}: the subscription was delivered {got[:12]} but the messages it received prescribe {want[:12]}", rep)
+
+    def cam_stream(n):
+        return [("c", rng.choice([1, 2, 3]), bytes([rng.randrange(1, 256)]) * rng.randrange(1, 4), rng.random() < 0.4) if rng.random() < 0.8
+                else ("s", rng.choice(state_types), rng.randrange(1, 9)) for _ in range(n)]
+
+    for _ in range(300 if thorough else 60):
+        msgs = cam_stream(rng.randrange(4, 16))
+        at = rng.randrange(0, len(msgs) + 1)
+        a, b = two_subs_run(msgs, at)
+        rep = {"messages": toks_of(msgs), "second_subscription_after": at}
+        judge_sub("two-subscribers:first", a, msgs, rep)
+        judge_sub("two-subscribers:second", b, msgs[at:], rep)
+        dist["two_subscribers"] = dist.get("two_subscribers", 0) + 1
+    for _ in range(300 if thorough else 60):
+        m1, m2 = cam_stream(rng.randrange(1, 10)), cam_stream(rng.randrange(2, 10))
+        a, b = resession_run(m1, m2)
+        rep = {"session1": toks_of(m1), "session2": toks_of(m2)}
+        judge_sub("resubscribe:first-session", a, m1, rep)
+        judge_sub("resubscribe:second-session", b, m2, rep)
+        dist["resubscribe_sessions"] = dist.get("resubscribe_sessions", 0) + 1
     # 3. voice assistant sequences
     EV = ["start", "stop", "audio:0", "audio:1", "ann", "unsub", "done:0:6055", "done:0:none", "done:1:7000", "done:1:none", "gone"]
     seqs = [list(p) for n in (1, 2, 3) for p in itertools.product(EV[:8], repeat=n)] if thorough else \
